@@ -62,6 +62,21 @@ func ruleNum(c *Ctx) {
 			if onlyConversionOf(r.Results[0], cn.Params[1]) && isNilConst(r.Results[len(r.Results)-1]) {
 				if n := derefNamed(unwrapMI(r.Results[0]).Type()); n != nil && n.Obj().Name() == "Number" {
 					ok, why = true, "useNumber edge returns Number(s), nil — a type conversion of the parameter, no parsing or formatting"
+					// … and nothing is parsed before the flag is looked at: a range check in front
+					// of the branch would reject literals (1e400) that a Number holds without loss
+					allInstrs(cn, func(i ssa.Instruction) {
+						call, isCall := i.(*ssa.Call)
+						if !isCall {
+							return
+						}
+						f := call.Call.StaticCallee()
+						if f == nil || f.Pkg == nil || f.Pkg.Pkg.Path() != "strconv" {
+							return
+						}
+						if !edgeDominates(bb, 1-s, call.Block()) {
+							ok, why = false, "strconv."+f.Name()+" at "+b.posOf(call)+" runs before (or regardless of) the useNumber branch: with useNumber set a literal outside the float64 range is rejected instead of being kept as it is"
+						}
+					})
 				} else {
 					why = "the useNumber edge returns the literal as " + typeShort(unwrapMI(r.Results[0]).Type()) + ", not as Number"
 				}
